@@ -100,6 +100,9 @@ func floodApply(op string, raw json.RawMessage) interface{} {
 	if err := json.Unmarshal(raw, &a); err != nil {
 		panic(err)
 	}
+	if op == "burst" {
+		return floodBurst(raw)
+	}
 	if op != "run" {
 		panic("verif: unknown op " + op)
 	}
@@ -242,7 +245,94 @@ func floodApply(op string, raw json.RawMessage) interface{} {
 	return map[string]interface{}{"ok": out, "nontrivial": true}
 }
 
+type floodBurstArgs struct {
+	Trials int    `json:"trials"`
+	Copies int    `json:"copies"`
+	Susp   uint64 `json:"susp"`
+}
+
+// floodBurst: the same update arrives over several connections at the same instant (each connection has its own
+// runProtocol goroutine); how many times is it relayed to a neighbour it did not come from?
+func floodBurst(raw json.RawMessage) interface{} {
+	var a floodBurstArgs
+	if err := json.Unmarshal(raw, &a); err != nil {
+		panic(err)
+	}
+	s, cancel := verifQuietNode("me", 30)
+	defer cancel()
+	s.epoch = 1000
+	s.sendRouteFloodChan = make(chan time.Duration, 16)
+	s.updateRoutingTableChan = make(chan time.Duration, 16)
+	recvs := []string{"a", "b", "c", "d", "e", "f"}[:a.Copies]
+	chans := map[string]chan []byte{}
+	for _, p := range append(append([]string{}, recvs...), "t") {
+		ch := make(chan []byte, 4096)
+		ctx, cf := context.WithCancel(s.context)
+		s.connections[p] = &connInfo{ReadChan: make(chan []byte), WriteChan: ch, Context: ctx, CancelFunc: cf, Cost: 1,
+			lastReceivedData: time.Now(), lastReceivedLock: &sync.RWMutex{}, logger: s.Logger}
+		chans[p] = ch
+	}
+	s.knownNodeInfo["o"] = &nodeInfo{Epoch: 100, Sequence: 5}
+	s.knownConnectionCosts["o"] = map[string]float64{"x": 1}
+	twice, never := 0, 0
+	for i := 0; i < a.Trials; i++ {
+		uid := fmt.Sprintf("n%d", i)
+		start := make(chan struct{})
+		var wg sync.WaitGroup
+		for _, r := range recvs {
+			ru := &routingUpdate{NodeID: "o", UpdateID: uid, UpdateEpoch: 100, UpdateSequence: uint64(6 + i),
+				Connections: map[string]float64{"x": 1}, ForwardingNode: r, SuspectedDuplicate: a.Susp}
+			wg.Add(1)
+			go func(ru *routingUpdate, r string) {
+				defer wg.Done()
+				<-start
+				s.handleRoutingUpdate(ru, r)
+			}(ru, r)
+		}
+		close(start)
+		if !verifTimed(10*time.Second, wg.Wait) {
+			return map[string]interface{}{"wedged": true}
+		}
+		verifWaitFlood()
+		n := 0
+		for p, ch := range chans {
+			for len(ch) > 0 {
+				b := <-ch
+				if p != "t" || len(b) == 0 || b[0] != MsgTypeRoute {
+					continue
+				}
+				got := &routingUpdate{}
+				if err := json.Unmarshal(b[1:], got); err == nil && got.UpdateID == uid {
+					n++
+				}
+			}
+		}
+		for len(s.sendRouteFloodChan) > 0 {
+			<-s.sendRouteFloodChan
+		}
+		for len(s.updateRoutingTableChan) > 0 {
+			<-s.updateRoutingTableChan
+		}
+		if n > 1 {
+			twice++
+		}
+		if n == 0 {
+			never++
+		}
+	}
+	return map[string]interface{}{"trials": a.Trials, "twice": twice, "never": never}
+}
+
 func floodGen(v *verifRun) {
+	// the same update over several connections at once: ordinary updates and suspected-duplicate notices
+	if v.n > 0 {
+		trials := 1500
+		if v.n > 1000 {
+			trials = 6000
+		}
+		v.do(floodApply, "burst", floodBurstArgs{Trials: trials, Copies: 4, Susp: 7})
+		v.do(floodApply, "burst", floodBurstArgs{Trials: trials, Copies: 4, Susp: 0})
+	}
 	names := []string{"a", "b", "c", "d", "e"}
 	hx := func(s string) string { return verifHex([]byte(s)) }
 	for i := 0; i < v.n; i++ {
